@@ -159,8 +159,8 @@ def cycle_tie_cases(draw, tier):
 
 def subchecks():
     return [
-        HypSub("optimal_absent", lambda t: cases_for(t, ABSENT, "absent", 7, 9), check_optimal, 3000, 40000),
-        HypSub("optimal_standin", lambda t: cases_for(t, STANDIN, "standin", 5, 6), check_optimal, 3000, 30000),
+        HypSub("optimal_absent", lambda t: cases_for(t, ABSENT, "absent", 7, 9), check_optimal, 5000, 60000),
+        HypSub("optimal_standin", lambda t: cases_for(t, STANDIN, "standin", 5, 6), check_optimal, 5000, 50000),
         HypSub("cycles_vs_ties", cycle_tie_cases, check_optimal, 2000, 30000),
         HypSub("all_optima_standin", lambda t: cases_for(t, ["cplex_noopt", "exact_noopt"], "standin", 5, 6, (False,),
                                                     dyadic_only=True),
